@@ -393,7 +393,15 @@ func cmdRun(args []string) {
 				if werr == nil && !killed {
 					die(2, "worker ended early without error")
 				}
-				// the scenario at lo killed or hung the process
+				// the scenario at lo killed or hung the process: confirmed by running it once more on its own with six times
+				// the patience (a loaded machine must not turn into a reported hang); only a second death or stall is recorded
+				if line, ok := runAlone(self, *treesF, *scenF, lo, part, 6**stall); ok {
+					fo, _ := os.OpenFile(part, os.O_APPEND|os.O_CREATE|os.O_WRONLY, 0o644)
+					fo.Write(line)
+					fo.Close()
+					lo++
+					continue
+				}
 				rec := famOf(scs[lo]).crash(scs[lo], killed, "process died: "+fmt.Sprint(werr))
 				fo, _ := os.OpenFile(part, os.O_APPEND|os.O_CREATE|os.O_WRONLY, 0o644)
 				fo.Write(marshalLine(rec))
@@ -410,6 +418,35 @@ func cmdRun(args []string) {
 		os.Remove(p)
 	}
 	fo.Close()
+}
+
+// runAlone runs scenario number k in a process of its own; ok is false when that process dies or stays silent for `patience`.
+func runAlone(self, trees, scen string, k int, part string, patience time.Duration) ([]byte, bool) {
+	tmp := part + ".alone"
+	os.Remove(tmp)
+	defer os.Remove(tmp)
+	cmd := exec.Command(self, "worker", "-trees", trees, "-scen", scen, "-from", fmt.Sprint(k), "-to", fmt.Sprint(k+1), "-out", tmp)
+	cmd.Stderr = os.Stderr
+	if err := cmd.Start(); err != nil {
+		return nil, false
+	}
+	done := make(chan error, 1)
+	go func() { done <- cmd.Wait() }()
+	select {
+	case err := <-done:
+		if err != nil {
+			return nil, false
+		}
+	case <-time.After(patience):
+		cmd.Process.Kill()
+		<-done
+		return nil, false
+	}
+	b, err := os.ReadFile(tmp)
+	if err != nil || countLines(tmp) != 1 {
+		return nil, false
+	}
+	return b, true
 }
 
 func main() {
